@@ -45,6 +45,16 @@ def walk(c, rep, prop, cfg):
             continue
         if op == 'cv': pool2[int(a[1])] = dict(pool[int(a[2])]) if pool[int(a[2])] else None; continue
         if op == 'wr': continue
+        if op == 'lg':
+            seg = next(it, None)
+            if prop == 'C11' and seg != 'calls=0': return bad('construction/copy/move/assign/swap/conversion-called-the-accessor (elements may have been read)', got=seg)
+            continue
+        if op == 'tx':
+            seg = next(it, None); v = pool[int(a[1])]
+            idx = [] if a[4] == '-' else [int(x) for x in a[4].split(',')]
+            off = sum(i * s for i, s in zip(idx, v['s']))
+            if prop == 'C03' and seg != 'threw=%d' % off: return bad('exception-thrown-by-accessor.access-does-not-propagate-out-of-the-element-access (or another element was accessed)', cmd=cmd, got=seg, specified='threw=%d' % off, form=a[2])
+            continue
         if op == 'c4':
             seg = next(it, None); want = pool[int(a[2])]
             if want is None:
